@@ -4,7 +4,7 @@
 //! If /verif/harness_raft/mirror_traces.json exists, every trace in it (a list
 //! of storage calls with the mirror's answers after each call) is replayed
 //! against the real storage on a scratch data directory and compared after
-//! every call. Otherwise all call sequences of length <= 4 over
+//! every call. Otherwise (or with `--generate`) all call sequences of length <= 4 over
 //! append(index 1..3, term 1..2) / commit(index 0..3) are generated and the
 //! real storage's answers are written, in the same format, to
 //! /verif/harness_server/real_storage_traces.json.
@@ -138,7 +138,10 @@ pub(crate) fn run(args: &Args) -> i32 {
     let w = engine::workers();
     let scratches: Vec<Mutex<Scratch>> = (0..w).map(|_| Mutex::new(Scratch::new("conf"))).collect();
 
-    if let Ok(text) = std::fs::read_to_string(MIRROR_TRACES) {
+    let force_generate = args.extra.iter().any(|a| a == "--generate");
+    // VERIF_MIRROR_TRACES: alternative input file (used to show that a wrong mirror answer is detected)
+    let mirror_file = std::env::var("VERIF_MIRROR_TRACES").unwrap_or_else(|_| MIRROR_TRACES.to_string());
+    if !force_generate && let Ok(text) = std::fs::read_to_string(&mirror_file) {
         let doc: Value = serde_json::from_str(&text).unwrap_or_else(|e| engine::machinery_failure(&format!("{MIRROR_TRACES}: {e}")));
         let traces = doc["traces"].as_array().cloned().unwrap_or_else(|| engine::machinery_failure(&format!("{MIRROR_TRACES}: no \"traces\" array")));
         let disagreements = Mutex::new(vec![]);
@@ -188,6 +191,6 @@ pub(crate) fn run(args: &Args) -> i32 {
     let all: Vec<Value> = results.into_iter().map(|m| m.into_inner().unwrap().unwrap()).collect();
     let doc = json!({"format": 1, "source": "real ClusterStorage over ClusterLog (agdb_server), answers after every call", "traces": all});
     std::fs::write(REAL_TRACES, serde_json::to_string(&doc).unwrap()).unwrap_or_else(|e| engine::machinery_failure(&format!("{REAL_TRACES}: {e}")));
-    println!("conformance: {MIRROR_TRACES} not found; wrote the real storage's answers for {} generated traces (all call sequences of length <= 4) to {REAL_TRACES}", traces.len());
+    println!("conformance: {} wrote the real storage's answers for {} generated traces (all call sequences of length <= 4) to {REAL_TRACES}", if force_generate { "--generate:".to_string() } else { format!("{MIRROR_TRACES} not found;") }, traces.len());
     0
 }
